@@ -153,6 +153,10 @@ CONSTANTS
   MaxId = {maxid}
   MaxAsserts = {maxasserts}
   KeepPending = {keep}
+  RuleStages <- MRuleStages
+  Members <- MMembers
+  DomRel <- MDomRel
+  CodRel <- MCodRel
 INVARIANTS {invariants}
 {properties}
 CONSTRAINT Bound
@@ -160,15 +164,21 @@ CHECK_DEADLOCK FALSE"""
 
 
 def eval_model_check(theory, sig, stages, module_path, name, maxels=2, maxid=3, maxasserts=2, keep=True, chasemax=8,
-                     liveness=False, workers=8, timeout=3000, allow_violation=False):
+                     liveness=False, workers=8, timeout=3000, allow_violation=False, invariants=None):
     """TLC on EqlogEval instantiated with one corpus theory (design-level refinement check)."""
     d = vlib.workdir(name)
     mod = "MCEval_" + theory
     cons = constants(sig, stages, module_path)
     cons = {k: v for k, v in cons.items() if k in ("MTypes", "MArity", "MFuncs", "MStages")}
+    explicit = [st for st in stages if not st.get("rule", "").startswith("<inherit")]
+    cons["MRuleStages"] = seq(f"[prem |-> {seq(atom(a) for a in st['prem'])}, concl |-> {concl(st['concl'])}]" for st in explicit)
+    model = next(iter(sig.models), None)
+    cons["MMembers"] = sset(s(r) for r in (sig.models[model] if model else []))
+    cons["MDomRel"] = s(eql.snake(model) + "_mor_dom") if model else s("")
+    cons["MCodRel"] = s(eql.snake(model) + "_mor_cod") if model else s("")
     props = "PROPERTY NoAllocation" + (" Terminates" if liveness else "")
     cfg = EVAL_CFG.format(spec="FairSpec" if liveness else "Spec", chasemax=chasemax, maxels=maxels, maxid=maxid,
                           maxasserts=maxasserts, keep="TRUE" if keep else "FALSE",
-                          invariants="RefinesApi SoundAtObs RootsOnly TypeSetsExact Disjoint", properties=props)
+                          invariants=invariants or "RefinesApi SoundAtObs RootsOnly TypeSetsExact Disjoint", properties=props)
     write_mc(d, mod, "EqlogEval", cons, cfg.splitlines())
     return vlib.tlc(mod, name=name + "-tlc", workers=workers, specdir=d, timeout=timeout, allow_violation=allow_violation)
